@@ -929,6 +929,23 @@ def run(ctx: common.Ctx):
            extra_files=['DinoProofs/Lemmas/Balance.lean', 'DinoProofs/Lemmas/BalanceSW.lean', 'DinoProofs/Lemmas/BalanceCol.lean', 'DinoProofs/Lemmas/BalanceZonal.lean',
                         'Dino/DynamicsSW.lean',
                         'Dino/Dynamics.lean'])
+  # the CONCRETE instance of the abstract spectral model (index DYN): structural laws of the horizontal operations are
+  # theorems about the list model of the real Grid, the analytic ones (Gram, Hyp-A/B) are isolated on the basis tables;
+  # T5.1 (rest_steady_dry_grid), T4.2, C11 / C12 / C10 corollaries are instantiated for it.  Audited and pinned like the
+  # property theorems; tied to the real Grid by dyn_inst.validate (the list-model correspondence restricted to the record)
+  ctx.lean('DinoProofs.Properties.DYN', 'DYN.txt',
+           extra_files=['Dino/DynamicsInst.lean', 'DinoProofs/Lemmas/DynamicsInst.lean', 'DinoProofs/Lemmas/DynamicsInstMask.lean',
+                        'DinoProofs/Lemmas/DynamicsInstLaws.lean', 'DinoProofs/Lemmas/DynamicsInstSym.lean'])
+  import functools
+  from props import dyn_inst
+  from dinosaur import spherical_harmonic as sh_
+  for fast, M_, L_, nlon_, nlat_, base_ in [(0, 4, 5, 13, 7, None), (1, 4, 5, 13, 7, 4), (1, 5, 6, 16, 8, 8)]:
+    impl_ = sh_.RealSphericalHarmonics if not fast else (
+        sh_.FastSphericalHarmonics if base_ is None else functools.partial(sh_.FastSphericalHarmonics, base_shape_multiple=base_))
+    g_ = sh_.Grid(longitude_wavenumbers=M_, total_wavenumbers=L_, longitude_nodes=nlon_, latitude_nodes=nlat_,
+                  latitude_spacing='gauss', radius=1.7, spherical_harmonics_impl=impl_)
+    st_ = dyn_inst.validate(ctx, g_, bool(fast))
+    ctx.notes.append(f'concrete instance gridOps on Grid(M={M_}, L={L_}, {nlon_}x{nlat_}, fast={bool(fast)}, base={base_}): {st_}')
   import time
   t = [time.time()]
 
